@@ -247,6 +247,7 @@ def main(argv=None):
     harness_errors = []
     inconclusive = []
     sat_cases = []
+    twin_cases = []
     obligations = discharged = evaluations = solver_checks = 0
     nontrivial_keys = set()
     nontrivial_merged = 0
@@ -310,6 +311,15 @@ def main(argv=None):
                                       path=o.get("path")))
             else:
                 inconclusive.append(dict(item=cfg.get("id"), label=o["label"], why=o["stage"]))
+        if r.get("twin_mismatch"):
+            seen_kinds = set()
+            for o in r.get("obligations", []):
+                kd = o.get("kind")
+                if kd in seen_kinds or len(seen_kinds) >= 8:
+                    continue
+                seen_kinds.add(kd)
+                twin_cases.append(dict(cfg=r["cfg"], label=o["label"], env=r["twin_mismatch"]["env"], kind="twin:%s" % kd,
+                                       path=-1, twin=True))
         for ex in r.get("exceptions", []):
             exc_cases.append(dict(cfg=r["cfg"], label="exception:" + ex["type"], env=ex.get("model") or {},
                                   kind="exception", detail=dict(msg=ex["msg"], tb=ex["tb"]), path=ex.get("path")))
@@ -333,11 +343,23 @@ def main(argv=None):
             to_replay.append(cse)
         else:
             skipped.append(cse)
+    to_replay = to_replay + twin_cases
     rep = do_replays(prop, prop, repo, to_replay, os.path.join(VERIF, "out", "replays"))
     violations = []
     known_hits = {}
     spurious = 0
+    twin_confirmed = set()
     for cse, rr in zip(to_replay, rep):
+        if cse.get("twin"):
+            # clauses of an item whose symbolic run and real-library run disagree, evaluated with the twin's numbers
+            if rr.get("reproduced") is True:
+                k = match_known(known, prop, cse["cfg"], cse["label"], _envf(cse["env"]), rr)
+                if k is not None:
+                    known_hits.setdefault(k["id"], [k, 0])[1] += 1
+                else:
+                    violations.append((cse, rr))
+                twin_confirmed.add(cse["cfg"].get("id"))
+            continue
         if rr.get("reproduced") is True:
             k = match_known(known, prop, cse["cfg"], cse["label"], _envf(cse["env"]), rr)
             if k is not None:
@@ -350,8 +372,14 @@ def main(argv=None):
                                      why="sat but not reproduced on the real code: " + str(rr.get("detail"))[:160]))
         else:
             harness_errors.append("replay of %s/%s failed: %s" % (cse["cfg"].get("id"), cse["label"], rr.get("detail")))
+    if twin_confirmed:
+        # the disagreement is explained by a clause that fails on the real library: reported as violation, not as harness error
+        harness_errors = [e for e in harness_errors
+                          if not ("ENCODING-MISMATCH" in e and any(e.startswith("item %s:" % i) for i in twin_confirmed))]
     verdict_by_group = {}
     for cse, rr in zip(to_replay, rep):
+        if cse.get("twin"):
+            continue
         g = (cse["cfg"].get("id"), cse.get("kind"))
         verdict_by_group.setdefault(g, []).append(rr.get("reproduced"))
     n_same_group = 0
